@@ -633,7 +633,7 @@ def gen_details(rng, allow_binary=True, allow_empty=True, nonempty_text=False):
     names = rng.sample(NAMES, n)
     out = []
     for nm in names:
-        if nm != 'reason' and allow_binary and rng.random() < 0.2:
+        if allow_binary and rng.random() < 0.2:      # (also for the name `reason`: a skip whose reason attachment is not text)
             out.append([chars(nm), ['binary', chars(rng.choice(BINARY))]])
         else:
             t = gen_text(rng)
@@ -781,7 +781,7 @@ def wf_tag(h):
                 return False
             p, cur = 1, c[1]
         elif k == 'add':
-            if p == 1 and c[2] == cur:
+            if p in (1, 2) and c[2] == cur:
                 p = 2
             elif p == 0:
                 p, cur = 3, c[2]
